@@ -331,3 +331,213 @@ def crashrun(bins, mod, pattern, analyses, out, timeout=120, cfgdir=None, gomaxp
             elif r["ev"] == "done":
                 res["done"] = True
     return res
+
+
+# ---------------------------------------------------------------------------------------------------------------
+# C05 / C06: option vectors, configurations, programs
+# ---------------------------------------------------------------------------------------------------------------
+GEN_CONFIG_TMPL = """options:
+%(options)s
+taint-tracking-problems:
+  - sources:
+      - package: "(main)|(command-line-arguments)|(prog)"
+        method: "^source$"
+    sinks:
+      - package: "(main)|(command-line-arguments)|(prog)"
+        method: "^sink$"
+    sanitizers:
+      - package: "(main)|(command-line-arguments)|(prog)"
+        method: "^sanitize$"
+    validators:
+      - package: "(main)|(command-line-arguments)|(prog)"
+        method: "^validate(Err)?$"
+slicing-problems:
+  - backtracepoints:
+      - package: "(main)|(command-line-arguments)|(prog)"
+        method: "^(bt[0-9]|sink)$"
+"""
+
+# pkg-filter regexes per program class: index = pf value of OptionSpace (0 none, 1 all, 2 main only, 3 none matching)
+PF_GENERATED = ["", "^prog/", "^prog/[a-z0-9]+$", "zzz_no_such_package"]
+PF_REPO = ["", "ar-go-tools", "testdata/[A-Za-z0-9_-]+$", "zzz_no_such_package"]
+
+
+def vec_name(v):
+    return "v%04d" % v["code"]
+
+
+def vec_options(v, pf_table, reports_dir):
+    """option vector of OptionSpace -> {yaml option: value}"""
+    o = {"summarize-on-demand": bool(v["od"]), "report-paths": bool(v["rp"]), "report-summaries": bool(v["rs"]),
+         "report-coverage": bool(v["rc"]), "report-no-callee-sites": bool(v["rn"]), "log-level": int(v["ll"]),
+         "max-alarms": int(v["ma"]), "reports-dir": reports_dir}
+    if pf_table[v["pf"]]:
+        o["pkg-filter"] = pf_table[v["pf"]]
+    return o
+
+
+def yaml_scalar(v):
+    if v is True:
+        return "true"
+    if v is False:
+        return "false"
+    if isinstance(v, str):
+        return '"%s"' % v.replace("\\", "\\\\")
+    return str(v)
+
+
+def write_gen_config(path, options):
+    lines = ["  %s: %s" % (k, yaml_scalar(v)) for k, v in options.items()]
+    with open(path, "w") as fh:
+        fh.write(GEN_CONFIG_TMPL % {"options": "\n".join(lines)})
+
+
+def write_repo_config(path, base_yaml, options):
+    """the repository's own config.yaml of a testdata program with the options under test overridden; relative
+    file references are made absolute (the rewritten file lives in the scratch directory)"""
+    import yaml
+    base_dir = os.path.dirname(os.path.abspath(base_yaml))
+    cfg = yaml.safe_load(open(base_yaml)) or {}
+    opts = dict(cfg.get("options") or {})
+    opts.update(options)
+    if "pkg-filter" not in options:
+        opts.pop("pkg-filter", None)
+    if opts.get("escape-config"):
+        opts["escape-config"] = os.path.join(base_dir, opts["escape-config"])
+    cfg["options"] = opts
+    if cfg.get("dataflow-specs"):
+        cfg["dataflow-specs"] = [os.path.join(base_dir, f) for f in cfg["dataflow-specs"]]
+    with open(path, "w") as fh:
+        yaml.safe_dump(cfg, fh, default_flow_style=False, sort_keys=False)
+
+
+def build_chain2(chain, name="p"):
+    """like semgen.build_chain, with TWO sources and THREE sink calls so that max-alarms matters:
+    c := source(); steps; sink(c'); d := source(); sink(d); sink(c')"""
+    import minigo
+    import semgen
+    P = minigo.Prog(name)
+    ctx = semgen.Ctx(P)
+    f = P.func("main")
+    x = ctx.fresh("c")
+    f.var(x, "string")
+    f.source(x)
+    ts = "S"
+    for step, deco in chain:
+        x = semgen.apply_step(ctx, f, step, deco, x, ts)
+        ts = semgen.STEPS[step][1]
+    f.sink(x)
+    d = ctx.fresh("d")
+    f.var(d, "string")
+    f.source(d)
+    f.sink(d)
+    f.sink(x)
+    P.meta = {"chain": [[s, d_] for s, d_ in chain], "final": ts}
+    return P
+
+
+# instruction kinds that read / write a global in a function other than the writer / reader.  Each entry:
+# name -> (declarations of package lib, body of Wr(x string), body of Rd() string)
+LIB_HEAD = '''package lib
+
+type Box struct{ S string }
+
+func (b *Box) Get() string  { return b.S }
+func (b *Box) Set(x string) { b.S = x }
+
+var Opaque bool
+
+func oracle() bool           { return Opaque }
+func deref(p *string) string { return *p }
+func setp(p *string, x string) { *p = x }
+func addrG() *string         { return &G }
+
+var G string
+var H string
+'''
+
+GLOBAL_KINDS = {
+    # ---- reader side (writer: plain store G = x)
+    "r_load": ("", "G = x", "return G"),
+    "r_callarg": ("", "G = x", "return deref(&G)"),
+    "r_binop": ("", "G = x", 'return G + "s"'),
+    "r_convert": ("", "G = x", "return string([]byte(G))"),
+    "r_iface": ("", "G = x", "var i any = &G\n\treturn *(i.(*string))"),
+    "r_phi": ("", "G = x", "p := &H\n\tif oracle() {\n\t\tp = &G\n\t}\n\treturn *p"),
+    "r_ret": ("", "G = x", "return *addrG()"),
+    "r_storeaddr": ("", "G = x", "var p *string\n\tpp := &p\n\t*pp = &G\n\treturn **pp"),
+    "r_mapaddr": ("", "G = x", 'm := map[string]*string{}\n\tm["k"] = &G\n\treturn *m["k"]'),
+    "r_sendaddr": ("", "G = x", "c := make(chan *string, 1)\n\tc <- &G\n\treturn *(<-c)"),
+    "r_sliceaddr": ("", "G = x", "ps := []*string{&G}\n\treturn *ps[0]"),
+    "r_closure": ("", "G = x", "f := func() string { return G }\n\treturn f()"),
+    "r_defer": ("", "G = x", 'r := ""\n\tfunc() {\n\t\tdefer func() { r = G }()\n\t}()\n\treturn r'),
+    "r_deferarg": ("func keepp(p *string, out *string) { *out = *p }", "G = x",
+                   'r := ""\n\tfunc() {\n\t\tdefer keepp(&G, &r)\n\t}()\n\treturn r'),
+    "r_send": ("", "G = x", "c := make(chan string, 1)\n\tc <- G\n\treturn <-c"),
+    "r_mapval": ("", "G = x", 'm := map[string]string{}\n\tm["k"] = G\n\treturn m["k"]'),
+    "r_field_of_struct": ("", "G = x", "b := Box{S: G}\n\treturn b.S"),
+    # ---- both sides through a method receiver (call argument &GB)
+    "rw_receiver": ("var GB Box", "GB.Set(x)", "return GB.Get()"),
+    # ---- aggregates
+    "a_field": ("var GS Box", "GS.S = x", "return GS.S"),
+    "a_index": ("var GA [2]string", "GA[0] = x", "return GA[0]"),
+    "a_slice": ("var GA [2]string", "GA[0] = x", "s := GA[:]\n\treturn s[0]"),
+    "a_slelem": ("var GSL = make([]string, 2)", "GSL[0] = x", "return GSL[0]"),
+    "a_range": ("var GSL = make([]string, 2)", "GSL[0] = x", 'r := ""\n\tfor _, v := range GSL {\n\t\tr += v\n\t}\n\treturn r'),
+    "a_mapentry": ("var GM = map[string]string{}", 'GM["k"] = x', 'return GM["k"]'),
+    "a_ptrfield": ("var GP = &Box{}", "GP.S = x", "return GP.S"),
+    "a_chan": ("var GCH = make(chan string, 1)", "GCH <- x", "return <-GCH"),
+    "a_ifaceglobal": ("var GI any", "GI = x", "s, _ := GI.(string)\n\treturn s"),
+    "a_fnglobal": ("var GF func() string", "GF = func() string { return x }", "return GF()"),
+    # ---- writer side (reader: plain load)
+    "w_callarg": ("", "setp(&G, x)", "return G"),
+    "w_closure": ("", "f := func() { G = x }\n\tf()", "return G"),
+    "w_defer": ("", "func() {\n\t\tdefer func() { G = x }()\n\t}()", "return G"),
+    "w_phi": ("", "p := &H\n\tif oracle() {\n\t\tp = &G\n\t}\n\t*p = x", "return G"),
+    "w_ret": ("", "*addrG() = x", "return G"),
+}
+
+KIND_MAIN = '''package main
+
+import "prog/%(name)s/lib"
+
+func source() string { return "tainted" }
+func sink(x any)     {}
+
+func main() {
+	x := source()
+	lib.Wr(x)
+	r := lib.Rd()
+	sink(r)
+	y := source()
+	sink(y)
+	sink(r)
+}
+'''
+
+
+def write_kind_program(d, name, kind):
+    decls, wr, rd = GLOBAL_KINDS[kind]
+    os.makedirs(os.path.join(d, "lib"), exist_ok=True)
+    with open(os.path.join(d, "main.go"), "w") as fh:
+        fh.write(KIND_MAIN % {"name": name})
+    with open(os.path.join(d, "lib", "lib.go"), "w") as fh:
+        fh.write(LIB_HEAD + decls + "\n\n// kind: " + kind + "\nfunc Wr(x string) {\n\t" + wr + "\n}\n\nfunc Rd() string {\n\t" + rd + "\n}\n")
+
+
+def optrun(bins, mod, patterns, out, taint=(), backtrace=(), repeat=1, env_extra=None, timeout=1800, prefix=()):
+    """runs harness/cmd/optrun; returns (records, stderr, returncode)"""
+    cmd = list(prefix) + [bins["optrun"], "-dir", mod, "-patterns", ",".join(patterns), "-out", out, "-repeat", str(repeat)]
+    if taint:
+        cmd += ["-taint", ",".join(taint)]
+    if backtrace:
+        cmd += ["-backtrace", ",".join(backtrace)]
+    env = vlib.goenv()
+    env["GOMAXPROCS"] = "2"
+    env.update(env_extra or {})
+    try:
+        q = subprocess.run(cmd, env=env, stdout=subprocess.DEVNULL, stderr=subprocess.PIPE, text=True, timeout=timeout)
+    except subprocess.TimeoutExpired:
+        return [], "timeout", -9
+    recs = vlib.read_ndjson(out) if os.path.exists(out) else []
+    return recs, q.stderr[-3000:], q.returncode
